@@ -156,6 +156,9 @@ class Gen:
             self.emit('mk get_string ' + hexs(self.word()), 'String')
         self.emit('mk make_phantom', 'Pushable')
         self.emit('mk make_expr_list', 'Xlist')
+        # the first product / sum of the Lexicon is requested through a still EMPTY warehouse that the client fills afterwards
+        self.warehouse_product('get_product', 0)
+        self.warehouse_product('get_sum', 0)
         self.warehouse_product('get_product')
         self.warehouse_product('get_sum')
         p = self.pick('Product')
@@ -168,12 +171,12 @@ class Gen:
         self.idents.append((i, w))
         return i, w
 
-    def warehouse_product(self, fac):
+    def warehouse_product(self, fac, size=None):
         w = self.nwh
         self.nwh += 1
         self.emit('wh_new')
         self.wh_live.append(w)
-        for _ in range(self.rng.randint(0, 4)):
+        for _ in range(self.rng.randint(0, 4) if size is None else size):
             self.emit('wh_push W%d r%d' % (w, self.pick('Type')))
         return self.emit('mk %s W%d' % (fac, w), 'Product' if fac == 'get_product' else 'Sum')
 
